@@ -388,7 +388,7 @@ fn main() {
                 let mut cur_ranges = r0.clone();
                 let mut steps = Vec::new();
                 for _ in 0..nsteps {
-                    let ne = if with_ranges && rng.chance(1, 5) { 0 } else { rng.range(1, 4) };
+                    let ne = if with_ranges && rng.chance(1, 3) { 0 } else { rng.range(1, 4) };
                     let mut edits = Vec::new();
                     for _ in 0..ne {
                         let te = random_edit(&mut rng, &cur, &bounds, &alpha_refs);
